@@ -501,10 +501,10 @@ class SymEx:
                         st.loop_entry[(st.fid, bb, l)] = st.mem[(lr, ())]
                     for k in [k for k in st.mem if k[0] == lr]:
                         del st.mem[k]
-                    st.mem[(lr, ())] = ('loopvar', bb, l)
+                    st.mem[(lr, ())] = ('loopvar', bb if st.fid == 0 else 'f%d:%d' % (st.fid, bb), l)
                 if info['heap']:
                     for k in [k for k in st.mem if k[0][0] not in ('local', 'flocal')]:
-                        st.mem[k] = ('loopvar', bb, show_lv(k))
+                        st.mem[k] = ('loopvar', bb if st.fid == 0 else 'f%d:%d' % (st.fid, bb), show_lv(k))
             st.visits[vk] += 1
             if st.fid == 0:
                 st.blocks.append(bb)
